@@ -57,7 +57,7 @@ theorem modelled_functions_are_source :
     CV.Gen.paths_body_ResolveSymbolicLink =
       "{ for range strings.Split(path, string(os.PathSeparator)) { sym, part, err := getSymbolinkLink(path) if err != nil { return \"\", err } if sym == \"\" && part == \"\" { return path, nil } resolved := strings.Replace(path, part, sym, 1) if resolved == path { return path, nil } path = resolved } return path, nil }" ∧
     CV.Gen.paths_body_getSymbolinkLink =
-      "{ parts := strings.Split(path, string(os.PathSeparator)) // Reconstruct the path step by step, checking each component var currentPath string if filepath.IsAbs(path) { currentPath = string(os.PathSeparator) } for _, part := range parts { if part == \"\" { continue } currentPath = filepath.Join(currentPath, part) if isSymLink := isSymbolicLink(currentPath); isSymLink { target, err := filepath.EvalSymlinks(currentPath) if err != nil { return \"\", \"\", err } return target, currentPath, nil } } return \"\", \"\", nil }" ∧
+      "{ if !filepath.IsAbs(path) { return \"\", \"\", nil } parts := strings.Split(path, string(os.PathSeparator)) currentPath := string(os.PathSeparator) for _, part := range parts { if part == \"\" { continue } currentPath = filepath.Join(currentPath, part) if isSymLink := isSymbolicLink(currentPath); isSymLink { target, err := filepath.EvalSymlinks(currentPath) if err != nil { return \"\", \"\", err } return target, currentPath, nil } } return \"\", \"\", nil }" ∧
     CV.Gen.paths_body_isSymbolicLink =
       "{ info, err := os.Lstat(path) if err != nil { return false } return info.Mode()&os.ModeSymlink != 0 }" ∧
     CV.Gen.paths_body_abs =
